@@ -54,6 +54,7 @@ type checkRun struct {
 	scratch  string
 	vdir     string
 	repo     string
+	oracleCache map[string]oracleResult
 }
 
 func cmdCheck(args []string) {
@@ -238,7 +239,7 @@ func (cr *checkRun) writeReplay(name string, o *Obligation, reason string) (stri
 		rep["solver_status"] = o.Status
 		rep["backend"] = o.Backend
 		if o.Model != "" {
-			rep["solver_output"] = firstLines(o.Model, 200)
+			rep["solver_output"] = firstLines(o.Model, 60)
 		}
 		fn := o.Fn
 		if oracle, ok := cr.spec.Oracles[fn]; ok {
